@@ -74,6 +74,13 @@ type Strs struct {
 	A int64    `json:"a"`
 }
 
+// Opts holds a MAP-BASED sub-object in a field of type map[string]any (layout "opts"): the member is an object
+// built with NewObjectSchema, embedded by value - a nil map is the empty mapping, never "absent".
+type Opts struct {
+	A int64          `json:"a"`
+	O map[string]any `json:"o"`
+}
+
 // NamedArr is a defined array type (value class arr_named).
 type NamedArr [2]string
 
@@ -132,6 +139,8 @@ func fieldsOf(t reflect.Type) []Field {
 				return "list_string"
 			case reflect.TypeOf(map[string]int64(nil)):
 				return "map_string_int"
+			case reflect.TypeOf(map[string]any(nil)):
+				return "objmap"
 			case reflect.TypeOf(Sub{}):
 				return "sub"
 			case reflect.TypeOf(Wide{}):
@@ -169,6 +178,7 @@ func mk(id string, v any) *Layout {
 var Layouts = []*Layout{
 	mk("wide", Wide{}), mk("wide_p", &Wide{}), mk("ptrs", Ptrs{}), mk("notag", NoTag{}),
 	mk("sub", Sub{}), mk("sub_p", &Sub{}), mk("subptrs", SubPtrs{}), mk("outer", Outer{}), mk("strs", Strs{}),
+	mk("opts", Opts{}),
 }
 
 // ByID finds a layout.
